@@ -121,7 +121,7 @@ def rand_body_node(rng, ids, depth, dep_p=0.25):
 def rand_case(rng, nested=False):
     ids = lg.Ids()
     shape = rng.choice(["fragment", "fragment", "list", "body", "html_full", "html_nohead", "html_head_late", "html_nobody", "html_deps_under", "two_roots",
-                        "body_plus_meta_siblings", "html_plus_meta_siblings", "head_and_body"])
+                        "body_plus_meta_siblings", "html_plus_meta_siblings", "head_and_body", "body", "lone_named_nontag"])
     kids = [rand_body_node(rng, ids, rng.choice([0, 1, 2, 3])) for _ in range(rng.randint(0, 4))]
     if rng.random() < 0.02:
         # a page that carries a great many dependencies (more than any fast path would expect), some names in several versions
@@ -148,7 +148,19 @@ def rand_case(rng, nested=False):
     elif shape == "list":
         content = [{"k": "list", "t": rng.choice(["list", "taglist", "tuple"]), "c": kids}]
     elif shape == "body":
-        content = [gen.TAG("body", *kids, via_fn=False, attrs=[["class", {"t": "str", "s": "bd"}]][: rng.randint(0, 1)])]
+        # (the user's <body> is used as the user made it: its attributes, and its whitespace flag, are its own)
+        content = [gen.TAG("body", *kids, via_fn=False, ws=rng.random() < 0.7, attrs=[["class", {"t": "str", "s": "bd"}], ["id", {"t": "str", "s": "main"}]][: rng.randint(0, 2)])]
+    elif shape == "lone_named_nontag":
+        # the only content is something that is not a tag but happens to be NAMED html / body: ordinary content
+        nm = rng.choice(["html", "body"])
+        if rng.random() < 0.6:
+            d_ = rand_dep(rng, ids)
+            d_["name"] = nm
+            if not d_["version"].replace(".", "").isdigit():
+                d_["version"] = "1.2"
+            content = [d_]
+        else:
+            content = [{"k": "obj", "s": "<p>" + ids.next("o") + "</p>", "taglike": nm}]
     elif shape == "html_full":
         content = [gen.TAG("html", gen.TAG("head", *user_head, via_fn=False, **head_extra), gen.TAG("body", *kids, via_fn=False), via_fn=False, attrs=hattrs)]
     elif shape == "html_nohead":
